@@ -24,6 +24,7 @@ func main() {
 	probe.Init()
 	for _, cs := range probe.Plan() {
 		custom, sc := cs.Custom, cs.Sc
+		probe.SetCase(cs)
 		for _, arm := range []string{"T", "EE", "ET"} {
 			r := probe.New("kratos/client.go:SentinelClientMiddleware.func1.func1:"+arm, sc, true)
 			ctx := transport.NewClientContext(context.Background(), tr{"discovery:///" + r.Res})
